@@ -388,6 +388,8 @@ func writeReplay(root string, c *checks.Check, tier string, f *explore.Found) st
 	rf := replayFile{Property: c.ID, Tier: tier, Sig: f.Sig, Scenario: f.Scenario, Family: f.Family, Choices: f.Choices, Msg: f.Msg, Observed: f.Observed}
 	if sc := findScenario(c, tier, f.Scenario); sc != nil {
 		rf.Trace, rf.Log, rf.Observed, _ = explore.Trace(sc, f.Choices)
+	} else {
+		rf.Input = f.Scenario
 	}
 	path := filepath.Join(root, "replays", sanitize(c.ID+"-"+f.Sig)+".json")
 	b, _ := json.MarshalIndent(rf, "", " ")
@@ -458,6 +460,10 @@ func writeEvidence(root string, c *checks.Check, tier string, seed int, m *check
 	}
 	if len(samples) == 0 {
 		samples = append(samples, "(no sample recorded)")
+	}
+	if v, ok := m.Extra["distinct_nontrivial_override"].(float64); ok {
+		nNon = int(v)
+		delete(m.Extra, "distinct_nontrivial_override")
 	}
 	cov := map[string]interface{}{
 		"evaluations":                   m.Execs,
